@@ -98,6 +98,14 @@ func (w *c12World) publish(ver int) {
 			text += "@@||allowed.shared.test^\n"
 		}
 		text += "||allowed.shared.test^\n||always.shared.test^\n"
+		// A host matched by several rules of several kinds in the first list
+		// and allowed again by the second: requesters with different lists
+		// get different verdicts from partly shared intermediate results.
+		if k == 0 {
+			text += "||multi.shared.test^\n|multi.shared.test^$dnstype=A\n/^multi\\.shared/\n"
+		} else {
+			text += "@@||multi.shared.test^\n"
+		}
 		l.origin.Set(listPath(k), text)
 	}
 	l.origin.Set("/index.json", `{"filters":[`+strings.Join(fl, ",")+`]}`)
@@ -230,7 +238,7 @@ func genHost(t *kernel.Tape, ver int, rs []*requester) (host string) {
 
 		return marker(t.Choose(markers, "marker"), v, kernel.Pick(t, tags, "tag"))
 	case 2:
-		return "allowed.shared.test"
+		return kernel.Pick(t, []string{"allowed.shared.test", "multi.shared.test"}, "shared-host")
 	case 3:
 		return "always.shared.test"
 	case 4:
@@ -269,6 +277,13 @@ func runC12(s *kernel.Sim, cfg string) {
 	rs := genRequesters(t)
 	w.publish(1)
 	w.refresh(true, "")
+
+	if cfg == "concq" {
+		s.Install()
+		runC12ConcurrentQueries(s, w, rs)
+
+		return
+	}
 
 	if cfg == "conc" {
 		// Every requester is subject to every component here, so that each
@@ -466,5 +481,73 @@ func runC12Concurrent(s *kernel.Sim, w *c12World, rs []*requester) {
 	s.Run()
 	if s.Failed() == nil && s.Stuck {
 		s.Failf("C12/stuck", "filter storage deadlocked", "stuck")
+	}
+}
+
+
+// runC12ConcurrentQueries: requesters with different configurations ask the
+// same hosts at the same time, no list changes.  Every answer must be the one
+// the stateless twin gives the same requester for the same question: results
+// held in the caches are shared between requests and must not be changed by
+// any of them.
+func runC12ConcurrentQueries(s *kernel.Sim, w *c12World, rs []*requester) {
+	t := s.T
+	type rec struct {
+		rq   *requester
+		host string
+		qt   uint16
+		got  string
+		task string
+	}
+	var recs []*rec
+	hosts := []string{"multi.shared.test", "multi.shared.test", "allowed.shared.test", "always.shared.test", marker(0, w.ver, "l0"), marker(0, w.ver, "svc")}
+	focus := kernel.Pick(t, hosts, "focus-host")
+
+	nq := t.Range(2, 3, "query-tasks")
+	for qi := 0; qi < nq; qi++ {
+		name := fmt.Sprintf("query%d", qi)
+		var mine []*rec
+		for i, n := 0, t.Range(2, 10, "queries"); i < n; i++ {
+			r := &rec{rq: kernel.Pick(t, rs, "requester"), host: focus, qt: dns.TypeA, task: name}
+			if t.Chance(1, 4, "other-host") {
+				r.host = kernel.Pick(t, hosts, "host")
+			}
+			if t.Chance(1, 5, "other-type") {
+				r.qt = dns.TypeAAAA
+			}
+			mine = append(mine, r)
+			recs = append(recs, r)
+		}
+		s.Go(name, func() {
+			for _, r := range mine {
+				s.Yield("before-query")
+				r.got = w.ask(w.a, r.rq, r.host, r.qt)
+			}
+		})
+	}
+	s.Run()
+	if s.Failed() != nil {
+		return
+	}
+	if s.Stuck {
+		s.Failf("C12/stuck", "filter storage deadlocked", "stuck")
+
+		return
+	}
+
+	s.Uninstall()
+	for _, r := range recs {
+		w.cmB.ClearAll()
+		want := w.ask(w.b, r.rq, r.host, r.qt)
+		s.Logf("%s: %s asks %s/%d -> %s", r.task, r.rq.name, r.host, r.qt, clip(r.got))
+		if r.got != "none" {
+			s.MarkNontrivial()
+		}
+		if r.got != want {
+			s.Failf("C12/cache-visible", "verdict under concurrent requests differs from the stateless twin's",
+				"%s: %s asks %s/%d:\n with caches, concurrently: %s\n stateless twin:            %s", r.task, r.rq.name, r.host, r.qt, r.got, want)
+
+			return
+		}
 	}
 }
